@@ -285,13 +285,7 @@ package decoder
 //@   loop 2: invariant outer <= cursor && cursor < len(buf) && buf[cursor] != 0
 //@   loop 2: decreases len(buf) - cursor
 
-//@ func (*stringDecoder).decodeByte(d, buf, cursor) (res, c, err)
-//@   props C20 C11
-//@   trusted string scanner with in-place unescape; body not yet under contract
-//@   requires d != nil && bufOK(buf, cursor)
-//@   ensures err == nil ==> cursor < c && c < len(buf)
-//@   ensures buf[len(buf)-1] == 0
-//@   assigns M
+// (contract of stringDecoder.decodeByte: see the section on JSON string bodies at the end of this file)
 
 //@ func (*Path).Field(p, sel) (child, found, err)
 //@   props C20 C11
@@ -818,3 +812,61 @@ package decoder
 //@   ghost tn := len(bytes)
 //@   ensures err == nil && ncalls("numberDecoder.op") != old(ncalls("numberDecoder.op")) ==> jsonNum(tp, tn)
 //@   assigns all
+
+// ---------------------------------------------------------------- JSON string bodies (C05, C17, C06, C07)
+// The bytes between the quotes as a DFA: 0 plain, 1 after a backslash, 2..5 inside \uXXXX (4..1 hex
+// digits still expected), 9 dead (raw control character, raw quote, bad escape). Same automaton as
+// in the encoder package.
+//@ spec isHex(c) := (c >= '0' && c <= '9') || (c >= 'a' && c <= 'f') || (c >= 'A' && c <= 'F')
+//@ spec strStep(q, c) := (q == 0 ? (c == 92 ? 1 : ((c < 32 || c == '"') ? 9 : 0)) : (q == 1 ? (simpleEsc(c) ? 0 : (c == 'u' ? 2 : 9)) : ((q >= 2 && q <= 5) ? (isHex(c) ? (q == 5 ? 0 : q + 1) : 9) : 9)))
+//@ ufun strRun(Int, Int) Int
+// a validated body: the run ends in the plain state and never passes through the dead state
+// (dead is absorbing; stated for every prefix instead of proved by induction)
+//@ spec strBody(p, n) := strRun(p, n) == 0 && (forall k :: 0 <= k && k <= n ==> strRun(p, k) != 9)
+
+//@ func unsafeAdd(ptr, offset) (r)
+//@   inline
+
+// in-place unescape: reads only the validated body, writes only inside it and never ahead of the read position
+//@ func unescapeString(buf) (n)
+//@   props C17 C06 C07 C12
+//@   let p0 := ptrOf(buf)
+//@   define strRun(p0, 0) == 0 && (forall k :: 0 <= k ==> strRun(p0, k + 1) == strStep(strRun(p0, k), M(p0 + k)))
+//@   requires len(buf) >= 1 && len(buf) <= cap(buf) && strBody(p0, len(buf))
+//@   requires exists j :: 0 <= j && j < len(buf) && buf[j] == 92
+//@   ensures 0 <= n && n <= len(buf)
+//@   assigns M[p0 .. p0 + len(buf))
+//@   nomerge
+//@   loop 1: invariant p0 <= dst && dst <= src && src <= end && end == p0 + len(buf) && p == p0
+//@   loop 1: invariant strRun(p0, src - p0) == 0
+//@   loop 1: invariant forall k :: src - p0 <= k && k < len(buf) ==> M(p0 + k) == old(M(p0 + k))
+//@   loop 1: decreases end - src
+
+//@ func (*stringDecoder).errUnmarshalType(d, typeName, offset) (e)
+//@   props C05 C06
+//@   requires d != nil
+//@   ensures e != nil
+//@   assigns nothing
+
+// The string scanner: what it returns is a validated body (no raw control character, only valid
+// escapes), unescaped in place; it writes nothing outside the body it scanned.
+//@ func (*stringDecoder).decodeByte(d, buf, cursor) (res, c, err)
+//@   props C05 C17 C06 C07 C12 C20 C11
+//@   requires d != nil && bufOK(buf, cursor)
+//@   define forall s, k :: strRun(s, 0) == 0 && (0 <= k ==> strRun(s, k + 1) == strStep(strRun(s, k), M(s + k)))
+//@   ensures err == nil ==> cursor < c && c < len(buf)
+//@   ensures buf[len(buf)-1] == 0
+//@   ensures err == nil && res != nil ==> ptrOf(res) > ptrOf(buf) + cursor && len(res) >= 0 && ptrOf(res) + len(res) < ptrOf(buf) + c && buf[c-1] == '"'
+// the raw bytes between the quotes (as they were on entry) are a JSON string body
+//@   ensures err == nil && res != nil ==> strRun(ptrOf(res), ptrOf(buf) + c - 1 - ptrOf(res)) == 0
+//@   assigns M[ptrOf(buf) + cursor .. ptrOf(buf) + len(buf) - 1)
+//@   loop 1: invariant old(cursor) <= cursor && cursor < len(buf)
+//@   loop 1: decreases len(buf) - cursor
+//@   loop 2: invariant old(cursor) < start && start <= cursor && cursor < len(buf) && b == ptrOf(buf) && escaped >= 0 && escaped <= cursor - start
+//@   loop 2: invariant strRun(ptrOf(buf) + start, cursor - start) == 0
+//@   loop 2: invariant forall k :: 0 <= k && k <= cursor - start ==> strRun(ptrOf(buf) + start, k) != 9
+//@   loop 2: invariant escaped > 0 ==> exists j :: start <= j && j < cursor && buf[j] == 92
+//@   loop 2: decreases len(buf) - cursor
+//@   loop 3: invariant 1 <= i && i <= 5 && cursor + 5 < len(buf) && (forall m :: 1 <= m && m < i ==> isHex(buf[cursor + m]))
+//@   loop 3: decreases 5 - i
+//@   nomerge
